@@ -68,6 +68,9 @@ def fac(name, anchor, nth=0):
     return X(name, F, anchor, nth=nth, rules=R_F)
 
 
+# a default-constructed x-iterator's memunit step has nothing to do with the source locator: ghost field `nat`, unconstrained
+R_CTOR4 = [('R11.row', r'loc\.row_size\(\)', 'ROW_SIZE(loc)', False), ('R11.pix', r'loc\.pixel_size\(\)', 'PIXEL_SIZE(loc)', False),
+           ('R11.nat', r'memunit_step\(x_iterator\(\)\)', 'loc->nat', False)]
 X_FAC = [
     fac('flipped_up_down_view', r'inline auto flipped_up_down_view\(View const& src\)\s*->[^{]*\{'),
     fac('flipped_left_right_view', r'inline auto flipped_left_right_view\(View const& src\)\s*->[^{]*\{'),
@@ -84,15 +87,14 @@ X_FAC = [
     # mem-initialiser expressions of the two stepping constructors of memory_based_2d_locator
     X('ctor2_ys', LOC, r'memory_based_2d_locator\(const memory_based_2d_locator<SI>& loc, coord_t y_step\) : _p\(loc\.x\(\), (.*?)\) \{\}', kind='expr',
       rules=[('R11.row', r'loc\.row_size\(\)', 'ROW_SIZE(loc)', True)]),
-    X('ctor4_xs', LOC, r'bool transpose=false\)\s*: _p\(make_step_iterator\(loc\.x\(\),(.*?)\),\s*\(transpose \? loc\.pixel_size\(\) : loc\.row_size\(\)\)\*y_step \) \{\}', kind='expr',
-      rules=[('R11.row', r'loc\.row_size\(\)', 'ROW_SIZE(loc)', True), ('R11.pix', r'loc\.pixel_size\(\)', 'PIXEL_SIZE(loc)', True)]),
-    X('ctor4_ys', LOC, r'bool transpose=false\)\s*: _p\(make_step_iterator\(loc\.x\(\),\(transpose \? loc\.row_size\(\) : loc\.pixel_size\(\)\)\*x_step\),\s*(.*?) \) \{\}', kind='expr',
-      rules=[('R11.row', r'loc\.row_size\(\)', 'ROW_SIZE(loc)', True), ('R11.pix', r'loc\.pixel_size\(\)', 'PIXEL_SIZE(loc)', True)]),
+    # the two expressions are cut independently of each other's text (first: up to the `),` that ends the make_step_iterator call's line; second: the rest)
+    X('ctor4_xs', LOC, r'bool transpose=false\)\s*: _p\(make_step_iterator\(loc\.x\(\),([^\n]*?)\),\s*\n', kind='expr', rules=R_CTOR4),
+    X('ctor4_ys', LOC, r'bool transpose=false\)\s*: _p\(make_step_iterator\(loc\.x\(\),[^\n]*\),\s*\n\s*(.*?) \) \{\}', kind='expr', rules=R_CTOR4),
 ] + [x for x in X_LOC if x.ident in ('loc_offset', 'loc_pluseq', 'loc_row_size', 'loc_pixel_size')]
 
 C = r'''
 typedef ptrdiff_t x_coord_t; typedef ptrdiff_t y_coord_t; typedef ptrdiff_t coord_t; typedef point_t difference_type;
-typedef struct { int64_t a, sx, sy; } gloc_t;                 /* ghost memory-based locator */
+typedef struct { int64_t a, sx, sy, nat; } gloc_t;            /* ghost memory-based locator (nat: memunit step of a default-constructed x-iterator, unconstrained) */
 typedef struct { ptrdiff_t w, h; gloc_t loc; } gview_t;        /* ghost view: dimensions + locator of pixel (0,0) */
 #define MEMUNIT_ADVANCE(pa, d) (*(pa) += (d))
 #define MEMUNIT_STEP_Y(self) ((self)->sy)
